@@ -86,6 +86,13 @@ def gen_i64_list(rng):
 
 def gen_u64_list(rng):
     n = rlen(rng)
+    if rng.random() < 0.2:
+        # maximum exactly at (or next to) a width-class boundary of the adaptive block
+        b = rng.choice([2**8, 2**16, 2**32, 2**64]) + rng.choice([-2, -1, -1, 0, 0, 1])
+        b = max(0, min(b, 2**64 - 1))
+        vs = [rng.randrange(b + 1) if rng.random() < 0.7 else b for _ in range(n)]
+        vs[rng.randrange(n)] = b
+        return vs
     top = rng.choice([2**7, 2**8, 2**14, 2**16, 2**21, 2**32, 2**64])
     return [rng.choice(U64_EDGE) % top if rng.random() < 0.3 else rng.randrange(top) for _ in range(n)]
 
@@ -117,6 +124,9 @@ def gen_items(rng, maxn=None):
             out.append(b"")
         else:
             out.append(rbytes(rng, rng.randint(1, max(1, size))))
+    if n <= 8 and rng.random() < 0.06:
+        # longest value exactly at a width-class boundary of the length block (stored as len+1)
+        out[rng.randrange(n)] = rbytes(rng, rng.choice([254, 255, 256, 65534, 65535, 65536]))
     return out
 
 
@@ -172,9 +182,9 @@ def i64_to_tag(v):
 def mutate(rng, b):
     """one malformed variant of the byte string b; returns (kind, bytes)"""
     b = bytearray(b)
-    k = rng.choice(["trunc", "trunc", "flip", "flip", "inflate", "ff", "zero", "extend", "random", "swap", "dup"])
+    k = rng.choice(["trunc", "trunc", "flip", "flip", "inflate", "ff", "zero", "extend", "random", "swap", "dup", "longvarint"])
     if not b:
-        k = rng.choice(["extend", "random"])
+        k = rng.choice(["extend", "random", "longvarint"])
     if k == "trunc":
         return k, bytes(b[:rng.randrange(len(b))])
     if k == "flip":
@@ -198,6 +208,12 @@ def mutate(rng, b):
     elif k == "dup":
         i = rng.randrange(len(b))
         b[i:i] = b[i:i + rng.randint(1, 3)]
+    elif k == "longvarint":
+        # an over-long / overflowing varint where a length or value is expected (8..11 continuation bytes)
+        v = bytes([rng.choice([0x80, 0xff, 0x81])] * rng.choice([8, 9, 9, 10, 11])) + bytes([rng.choice([0, 1, 2, 0x7f, 0x80])])
+        i = rng.choice([0, 0, 1, 1, 2, rng.randrange(len(b) + 1)])
+        i = min(i, len(b))
+        b[i:i + (len(v) if rng.random() < 0.5 else 1)] = v
     return k, bytes(b)
 
 
